@@ -231,9 +231,9 @@ def route_obligations(rep):
 # ------------------------------------------------------------------ bounded
 def bounded(rep, tier):
     from mindsdb_sql.render.sqlalchemy_render import SqlalchemyRender
-    from mindsdb_sql.parser.ast import Select, Constant, Identifier, BinaryOperation, Insert, Update, Tuple
+    from mindsdb_sql.parser.ast import Select, Constant, Identifier, BinaryOperation, Insert, Update, Tuple, Join
     from mindsdb_sql import parse_sql
-    chars = ["'", '"', '\\', 'a', ' ', '%', ':', ';', '-', '/', '*', '\n']
+    chars = ["'", '"', '\\', 'a', ' ', '%', ':', ';', '-', '/', '*', '\n', '`']
     maxlen = 2 if tier == 'quick' else 3
     values = [''.join(t) for k in range(maxlen + 1) for t in itertools.product(chars, repeat=k)]
     values += ["\\' OR 1=1 -- ", "a%b", ":x", "x;y", "-- c", "/* c */", "50%", "%s", ":name"]
@@ -248,10 +248,14 @@ def bounded(rep, tier):
         yield 'in-list', Select(targets=[Identifier('a')], from_table=Identifier('t'), where=BinaryOperation('in', args=[Identifier('a'), Tuple([Constant(v), Constant('z')])]))
         yield 'insert', Insert(table=Identifier('t'), columns=[Identifier('c')], values=[[Constant(v)]])
         yield 'update', Update(table=Identifier('t'), update_columns={'c': Constant(v)}, where=BinaryOperation('=', args=[Identifier('k'), Constant(1)]))
+        # a statement the renderer refuses (so that the documented fallback to the tree's own text is what the caller gets)
+        yield 'refused-join', Select(targets=[Identifier('a')], from_table=Join(left=Identifier('t1'), right=Identifier('t2'), join_type='RIGHT JOIN',
+                                     condition=BinaryOperation('=', args=[Identifier('t1.k'), Identifier('t2.k')])), where=BinaryOperation('=', args=[Identifier('a'), Constant(v)]))
     for v in values:
-        reg = 'backslash' if '\\' in v else ('squote' if "'" in v else 'other')
+        reg0 = 'backslash' if '\\' in v else ('squote' if "'" in v else 'other')
+        reg = 'backtick' if (reg0 == 'other' and '`' in v) else reg0
         for pos, q in positions(v):
-            if tier == 'quick' and pos in ('in-list', 'update') and len(v) > 1:
+            if tier == 'quick' and pos in ('in-list', 'update', 'refused-join') and len(v) > 1:
                 continue
             for tgt, kind in TARGETS.items():
                 n += 1
@@ -261,13 +265,24 @@ def bounded(rep, tier):
                     from sqlalchemy.exc import SQLAlchemyError
                     if not isinstance(e, (SQLAlchemyError, NotImplementedError)):       # refusing to render is C17's business
                         fails.setdefault(f'C07.bounded.{tgt}.{pos}.raises', (repr(v), f'{type(e).__name__}: {str(e)[:80]}'))
+                        continue
+                    # the translation is refused: with the default fallback the caller receives the tree's own text, adapted for the target;
+                    # that text is an output path too and must carry the constant as one exact literal of the target
+                    try:
+                        fsql = renders[tgt].get_string(q)
+                    except Exception:
+                        continue
+                    j = fsql.find("'")
+                    fval, fend = scan_literal(fsql, j, kind) if j >= 0 else (None, 0)
+                    if not (fval == v and "'" not in fsql[fend:].replace("'z'", '')):
+                        fails.setdefault(f'C07.bounded.fallback.{kind}.{reg}', (repr(v), f'[{tgt} {pos}] fallback text `{fsql[:100]}` -> literal read as {fval!r}'))
                     continue
                 i = sql.find("'")
                 val, end = scan_literal(sql, i, kind) if i >= 0 else (None, 0)
                 rest = sql[end:]
                 ok = val == v and "'" not in rest.replace("'z'", '') if pos != 'select-list' else val == v
                 if not ok:
-                    fails.setdefault(f'C07.bounded.{tgt}.{reg}', (repr(v), f'[{pos}] `{sql[:100]}` -> literal read as {val!r}, rest `{rest[:30]}`'))
+                    fails.setdefault(f'C07.bounded.{tgt}.{reg0}', (repr(v), f'[{pos}] `{sql[:100]}` -> literal read as {val!r}, rest `{rest[:30]}`'))
             # the tree's own string, read by the own lexer
             if pos in ('select-list', 'insert'):
                 n += 1
@@ -280,7 +295,7 @@ def bounded(rep, tier):
                 except Exception as e:
                     ok, obs = False, f'`{q.to_string()[:80]}` -> {type(e).__name__}'
                 if not ok:
-                    fails.setdefault(f'C07.bounded.to_string.{pos}.{reg}', (repr(v), obs))
+                    fails.setdefault(f'C07.bounded.to_string.{pos}.{reg0}', (repr(v), obs))
         # raw python value inside Insert (to_value -> repr)
         n += 1
         try:
@@ -292,7 +307,7 @@ def bounded(rep, tier):
         except Exception as e:
             ok, obs = False, f'{type(e).__name__}'
         if not ok:
-            fails.setdefault(f'C07.bounded.to_string.insert-raw-value.{reg}', (repr(v), obs))
+            fails.setdefault(f'C07.bounded.to_string.insert-raw-value.{reg0}', (repr(v), obs))
     # numeric / boolean constants: each literal of a statement must be rendered as it is rendered alone by a fresh renderer, whatever other constants
     # the statement (or an earlier statement of the same renderer) contains - values that compare equal across types (1, 1.0, True) included
     import re as _re
@@ -337,10 +352,49 @@ def bounded(rep, tier):
                     continue
                 if base[k1:] != both[k2:]:
                     fails.setdefault(f'C07.bounded.{tgt}.constant-pair', (repr((v1, v2)), f'with {v1!r} in the select list the condition is rendered `{both[k2:][:80]}`, alone `{base[k1:][:80]}`'))
+    # non-string constants: dates / datetimes / intervals must come out as one quoted literal carrying str(value); numbers and booleans as themselves
+    import datetime as _dt
+    typed = {'date': [_dt.date(2020, 1, 2), _dt.date(1999, 12, 31)], 'datetime': [_dt.datetime(2020, 1, 2, 3, 4, 5), _dt.datetime(2020, 1, 2, 3, 4, 5, 678)],
+             'timedelta': [_dt.timedelta(days=1, seconds=5), _dt.timedelta(seconds=90)], 'bool': [True, False], 'int': [0, 7, -5, 12345678901234567890], 'float': [1.5, -0.25, 100.0]}
+    for tname, vals in typed.items():
+        for v in vals:
+            quoted = tname in ('date', 'datetime', 'timedelta')
+            for pos, q in positions(v):
+                if pos not in ('select-list', 'where', 'insert'):
+                    continue
+                # own text, read by the own parser
+                n += 1
+                try:
+                    text = q.to_string()
+                    q2 = parse_sql(text, dialect='mindsdb')
+                    node = q2.targets[0] if pos == 'select-list' else (q2.where.args[1] if pos == 'where' else q2.values[0][0])
+                    got = getattr(node, 'value', None)
+                    if type(node).__name__ == 'UnaryOperation' and tname in ('int', 'float') and getattr(node, 'op', None) == '-':
+                        got = -node.args[0].value
+                    want = str(v) if quoted else v
+                    ok = type(node).__name__ in ('Constant', 'UnaryOperation') and got == want and type(got) is type(want)
+                    obs = f'`{text[:80]}` -> {node!r}'
+                except Exception as e:
+                    ok, obs = False, f'{type(e).__name__}: {str(e)[:60]}'
+                if not ok:
+                    fails.setdefault(f'C07.bounded.to_string.type.{tname}', (repr(v), f'[{pos}] {obs}'))
+                if not quoted:
+                    continue
+                for tgt, kind in TARGETS.items():
+                    n += 1
+                    try:
+                        sql = renders[tgt].get_string(q)
+                    except Exception as e:
+                        fails.setdefault(f'C07.bounded.{tgt}.type.{tname}.raises', (repr(v), f'[{pos}] {type(e).__name__}: {str(e)[:80]}'))
+                        continue
+                    i = sql.find("'")
+                    val, end = scan_literal(sql, i, kind) if i >= 0 else (None, 0)
+                    if val != str(v):
+                        fails.setdefault(f'C07.bounded.{tgt}.type.{tname}', (repr(v), f'[{pos}] `{sql[:100]}` -> literal read as {val!r}'))
     rep.bounded_evals = n
     rep.bounded_rule = (f'all strings of length <= {maxlen} over {chars} plus injection-shaped samples, as Constant in select list / WHERE / IN list / INSERT / UPDATE, '
                         'rendered by the real SqlalchemyRender for 5 dialects and scanned by an independent scanner of the target family; own to_string re-parsed; '
-                        'failures grouped by target x value region; mixtures of equal-valued int/float/bool/str/NULL constants in one statement and across statements of one renderer vs each constant rendered alone')
+                        'failures grouped by target x value region; date / datetime / timedelta / bool / int / float constants in select list, WHERE and INSERT (own text re-parsed; quoted kinds scanned in every target); mixtures of equal-valued int/float/bool/str/NULL constants in one statement and across statements of one renderer vs each constant rendered alone')
     for cid, (inp, obs) in sorted(fails.items()):
         rep.add_bounded(Bounded(cid, False, inp, obs, 'one literal, read back as the value', bound=f'len<={maxlen}'))
 
